@@ -8,7 +8,7 @@ func Checks() map[string]*simcore.Check {
 	return map[string]*simcore.Check{"C49": {
 		ID: "C49", Engine: "rpcsim", Level: "exploration",
 		Rule: "plans = door (ServeCodec over an in-memory connection | ServeHTTP with recorder) x batch item/response-size limits x read fragmentation x 1-6 units " +
-			"(single messages and batches of 0-8 entries: calls to echo/fail/large/sleep/block/subscribe/unsubscribe/unknown/bad-params methods, notifications, 14 kinds of invalid entries, " +
+			"(single messages and batches of 0-8 entries: calls to echo/fail/large/sleep/block/subscribe/unsubscribe/unknown/bad-params methods and existing/missing methods named *_subscription, notifications, 14 kinds of invalid entries, " +
 			"stray responses and subscription notifications, duplicate and exotic ids) x virtual instants of every feed, release, emission and teardown (eof/stop/reset/garbage/truncated) " +
 			"x http WriteTimeout / context deadline with releases just before, at, just after and long after the deadline x outside cancellation of the request context at a planned instant; every feed, method entry, release and notification emission is a gate released by the plan's tape. " +
 			"Non-trivial = the scheduler had a real choice at >=2 steps or a request timeout fired; distinct = distinct (released-gate sequence, response-class sequence) fingerprints.",
@@ -26,6 +26,6 @@ func Checks() map[string]*simcore.Check {
 		Runs:      map[string]int{"quick": 32000, "thorough": 600000},
 		Gen:       Gen, Decode: Decode, Run: Run, Shrink: Shrink,
 		ProbeNames: []string{"timeout-fired-while-method-running", "same-instant-timeout-vs-return", "batch-too-large", "resp-too-large", "notify-after-response",
-			"call-in-flight-at-teardown", "write-rejected-after-close", "duplicate-id-in-batch", "parse-error", "answered-by-deadline", "unanswered-at-teardown", "idless-subscribe", "cancelled-while-method-running", "cancelled-with-batch-calls-unstarted"},
+			"call-in-flight-at-teardown", "write-rejected-after-close", "duplicate-id-in-batch", "parse-error", "answered-by-deadline", "unanswered-at-teardown", "idless-subscribe", "cancelled-while-method-running", "cancelled-with-batch-calls-unstarted", "bulk-in-call-notifications", "call-named-like-subscription-notification"},
 	}}
 }
